@@ -111,7 +111,7 @@ func genC13(r *Rng, e *Emitter, n int) {
 	e.tally(fmt.Sprintf("exhaustive-3x3-upto-%d", maxLen))
 	grids := []int{3, 5, 15, 200, 1 << 20}
 	for i := 0; i < n; i++ {
-		stride := 2 + r.Intn(3)
+		stride := 2 + r.Intn(5)
 		g := grids[r.Intn(len(grids))]
 		np := 1 + r.Intn(12)
 		switch r.Intn(5) {
